@@ -795,7 +795,10 @@ int igc_fdputc(int c, int fd)
     return 1;
 }
 // typed variadic calls of the entry points (c06_dispatch.cpp): 0 sprintf, 1 vsprintf, 2 fdprintf, 3 vfdprintf, 4 snprintf
-int run_entry(int which, char *buf, size_t size, const char *fmt, const Args &a);
+// fd: the descriptor handed to fdprintf / vfdprintf (every non-negative descriptor is valid: 0 is what open() returns
+// after close(0) and the first device on a bare-metal target)
+int run_entry(int which, char *buf, size_t size, int fd, const char *fmt, const Args &a);
+static const int FDS[5] = {0, 1, 2, 7, 1000000};
 static void entries_body()
 {
     static const char *ENT[] = {"sprintf", "vsprintf", "fdprintf", "vfdprintf", "snprintf"};
@@ -806,11 +809,13 @@ static void entries_body()
     int sep = mc::choose(2); // "|" between the parts, or nothing (so that the whole output can be empty)
     bool fd = which == 2 || which == 3;
     int failmode = fd ? mc::choose(3) : mc::choose(1); // fd entries: no failure / first char fails / third char fails
+    int the_fd = FDS[fd ? mc::choose(5) : mc::choose(1)];
     const Part &p0 = P[combo % n], &p1 = P[combo / n];
     string f = string(p0.frag) + (sep ? "" : "|") + p1.frag;
     Args a = p0.args;
     a.insert(a.end(), p1.args.begin(), p1.args.end());
-    mc::describe("%s(%s) args [%s] write-failure mode %d", ENT[which], vis(f).c_str(), show_args(a).c_str(), failmode);
+    mc::describe("%s(%s) args [%s] write-failure mode %d%s", ENT[which], vis(f).c_str(), show_args(a).c_str(), failmode,
+                 fd ? mc::fmt(" descriptor %d", the_fd).c_str() : "");
     string expect = (p0.is_p ? run_impl(p0.frag, p0.args).text : run_ref(p0.frag, p0.args).text) + (sep ? "" : "|") +
                     (p1.is_p ? run_impl(p1.frag, p1.args).text : run_ref(p1.frag, p1.args).text);
     string e = ENT[which];
@@ -824,7 +829,7 @@ static void entries_body()
         size_t need = expect.size() + 1;
         char *buf = (char *)malloc(need);
         memset(buf, 0x5A, need);
-        int r = run_entry(which, buf, need, f.c_str(), a);
+        int r = run_entry(which, buf, need, -1, f.c_str(), a);
         mc::crash_context("C06.harness");
         string whole(buf, need);
         if (r != (int)expect.size())
@@ -853,21 +858,21 @@ static void entries_body()
         g_fd_calls = 0;
         g_fd_seen = -1;
         g_fd_fail_at = failmode == 0 ? -1 : failmode == 1 ? 0 : 2;
-        int r = run_entry(which, nullptr, 0, f.c_str(), a);
+        int r = run_entry(which, nullptr, 0, the_fd, f.c_str(), a);
         mc::crash_context("C06.harness");
         if (failmode == 0)
         {
             if (g_fd_out != expect)
-                mc::violation("C06." + e + ".text", "%s(7, %s): wrote %s, expected %s", e.c_str(), vis(f).c_str(), vis(g_fd_out).c_str(),
+                mc::violation("C06." + e + ".text", "%s(%d, %s): wrote %s, expected %s", e.c_str(), the_fd, vis(f).c_str(), vis(g_fd_out).c_str(),
                               vis(expect).c_str());
             if (r != (int)expect.size())
-                mc::violation("C06." + e + ".retval", "%s(7, %s): returned %d, %zu characters were due", e.c_str(), vis(f).c_str(), r,
+                mc::violation("C06." + e + ".retval", "%s(%d, %s): returned %d, %zu characters were due", e.c_str(), the_fd, vis(f).c_str(), r,
                               expect.size());
-            if (!expect.empty() && g_fd_seen != 7)
-                mc::violation("C06." + e + ".fd", "%s(7, ...): wrote to descriptor %d", e.c_str(), g_fd_seen);
+            if (!expect.empty() && g_fd_seen != the_fd)
+                mc::violation("C06." + e + ".fd", "%s(%d, ...): wrote to descriptor %d", e.c_str(), the_fd, g_fd_seen);
         }
         else if ((long)expect.size() > g_fd_fail_at && r >= 0)
-            mc::violation("C06." + e + ".error_lost", "%s(7, %s): the write of character %ld failed but %d was returned", e.c_str(),
+            mc::violation("C06." + e + ".error_lost", "%s(%d, %s): the write of character %ld failed but %d was returned", e.c_str(), the_fd,
                           vis(f).c_str(), g_fd_fail_at, r);
         g_fd_fail_at = -1;
     }
@@ -1159,7 +1164,7 @@ static void long_entries_body()
         size_t need = expect.size() + 1;
         char *buf = (char *)malloc(need);
         memset(buf, 0x5A, need);
-        int r = run_entry(which, buf, need, f.c_str(), a);
+        int r = run_entry(which, buf, need, -1, f.c_str(), a);
         mc::crash_context("C06.harness");
         if (r != (int)expect.size())
             mc::violation("C06.long.entry." + e + ".retval", "%s: returned %d", what.c_str(), r);
@@ -1174,7 +1179,7 @@ static void long_entries_body()
         g_fd_out.clear();
         g_fd_calls = 0;
         g_fd_fail_at = -1;
-        int r = run_entry(which, nullptr, 0, f.c_str(), a);
+        int r = run_entry(which, nullptr, 0, FDS[fi % 5], f.c_str(), a);
         mc::crash_context("C06.harness");
         if (r != (int)expect.size())
             mc::violation("C06.long.entry." + e + ".retval", "%s: returned %d", what.c_str(), r);
